@@ -88,3 +88,22 @@ package coregex
 //@   requires regexOK(r) && len(s) <= 140737488355328
 //@   modifies @searchState
 //@   ensures result == cnt(r.engine, r.engine.longest, stringBytes(s), 0, false, normB(n))
+
+// ---- compile entry points and mode (C09, C10) ----
+
+//@ func Compile
+//@   props C09 C07
+//@   ensures result1 == nil ==> result0 != nil && !result0.longest && result0.engine != nil && !result0.engine.longest && result0.engine.pikevm != nil && parses(pattern, 212)
+//@   ensures !parses(pattern, 212) ==> result1 != nil
+
+// CompilePOSIX must accept exactly what the POSIX (flags 0) parser accepts and switch to leftmost-longest
+//@ func CompilePOSIX
+//@   props C09 C10 C07
+//@   ensures result1 == nil ==> result0 != nil && result0.longest && result0.engine.longest && parses(pattern, 0)
+//@   ensures !parses(pattern, 0) ==> result1 != nil
+
+//@ func (*Regex).Longest
+//@   props C10 C07
+//@   requires r != nil && r.engine != nil && r.engine.pikevm != nil
+//@   modifies r.longest, r.engine.longest, r.engine.pikevm.*, r.engine.boundedBacktracker.internalState.Longest
+//@   ensures r.longest && r.engine.longest
